@@ -198,6 +198,7 @@ fn objectives() -> Vec<Option<FnRep>> {
         Some(FnRep::Poly { terms: vec![] }),
         Some(FnRep::Lin { terms: vec![], c: 0.0 }),
         Some(FnRep::Poly { terms: vec![(vec![2], 1.0), (vec![1, 1, 1, 2], 2.0)] }),
+        Some(FnRep::Poly { terms: vec![(vec![], 2.0), (vec![1], 1.0), (vec![], -0.5)] }),
     ]
 }
 
@@ -207,6 +208,7 @@ fn con_functions() -> Vec<Option<FnRep>> {
         Some(FnRep::Const(-1.5)),
         Some(FnRep::Lin { terms: vec![(1, 1.0), (2, -0.5)], c: 1.0 }),
         Some(FnRep::Quad { entries: vec![(2, 1, 1.0)], lin: Some((vec![(1, -1.0)], 0.0)) }),
+        Some(FnRep::Poly { terms: vec![(vec![], 1.0), (vec![2], 1.0), (vec![], -2.5), (vec![2], -0.5)] }),
     ]
 }
 
